@@ -2,7 +2,7 @@
 import solvercheck, framework
 PID = "C03"
 MODULE = "MysticVerif.Props.C03"
-THEOREMS = ["MysticVerif.C03.de_evaluations_constrained", "MysticVerif.C03.de_reported_constrained", "MysticVerif.C03.nm_evaluations_constrained", "MysticVerif.C03.nm_reported_constrained_partial", "MysticVerif.C03.K_common_fixpoint"]
+THEOREMS = ["MysticVerif.C03.de_evaluations_constrained", "MysticVerif.C03.de_reported_constrained", "MysticVerif.C03.nm_evaluations_constrained", "MysticVerif.C03.nm_reported_constrained_partial", "MysticVerif.C03.K_common_fixpoint", "MysticVerif.C03.pw_evaluations_constrained", "MysticVerif.C03.pw_reported_constrained", "MysticVerif.C03.pw_step_record_partial", "MysticVerif.C03.pw_step_record_unconstrained_witness"]
 
 
 def run_shard(pid, seed, shard, ncases, tier, extra):
@@ -14,7 +14,7 @@ def main(tier, seed):
 
 
 RULE_EXTRA = 'constraints installed from the start and mid-run (always generated compatible with the box in force).'
-TRUSTED_EXTRA = ['Powell: monitor only']
+TRUSTED_EXTRA = ["Powell: the Brent line search is an oracle of the model (which points it evaluates, which one it returns), recorded from the real run; the contract 'never worse than the start' (LsMono) is checked on every recorded search; everything else of PowellDirectionalSolver._Step is computed by the model and replayed bit for bit (histogram model:pw, pw-iterations, pw-extrapolation-searches)"]
 
 
 def replay(path):
